@@ -359,6 +359,10 @@ func (p *Project) WithProfiles(profiles []string) (*Project, error) {
 	}
 	newProject.Services = enabled
 	newProject.DisabledServices = disabled
+	if profiles != nil {
+		// keep our own copy: the caller's slice may well be the receiver's Profiles
+		profiles = append(make([]string, 0, len(profiles)), profiles...)
+	}
 	newProject.Profiles = profiles
 	return newProject, nil
 }
